@@ -48,6 +48,18 @@ def _list(rng, cls, n):
             out.append(gen.make_obs(rng, [('A|r1', sub)], mean=float(rng.uniform(-1, 2)), sigma=float(rng.uniform(0.05, 1))))
         # correlate them a bit: add a common signal on the common configurations is not possible without changing idl; keep independent data
         return out
+    if cls == 'single_twin':
+        # one chain, irregular lists that agree in length, first and last configuration and differ in between (what a cheap test of
+        # "the same configurations" cannot tell apart); a common signal on top of independent noise, so the correlations are sizeable
+        L = int(rng.integers(14, 30))
+        first, last = int(rng.integers(1, 5)), int(rng.integers(60, 80))
+        sig = {c: float(rng.normal()) for c in range(first, last + 1)}
+        out = []
+        for _ in range(n):
+            il = [first] + sorted(int(x) for x in rng.choice(np.arange(first + 1, last), size=L - 2, replace=False)) + [last]
+            x = np.array([sig[c] for c in il]) + 0.5 * rng.normal(size=L) + float(rng.uniform(-1, 2))
+            out.append(pe.Obs([x], ['A|r1'], idl=[il]))
+        return out
     if cls == 'multi':
         lays = gen.operand_layouts(rng, str(rng.choice(['multi_replica', 'replica_subset', 'second_ensemble', 'overlap'])), n)
         prim = [gen.make_obs(rng, lay, mean=float(rng.uniform(0.5, 2)), sigma=float(rng.uniform(0.05, 0.5)), tau=float(rng.choice([0, 3]))) for lay in lays]
@@ -82,7 +94,7 @@ def _list(rng, cls, n):
 
 def cov_cases(rng, n, ctx):
     cases = []
-    classes = ['single_same', 'single_nested', 'multi', 'external', 'mixed']
+    classes = ['single_same', 'single_nested', 'multi', 'external', 'mixed', 'single_twin']
     for i in range(n):
         cls = classes[i % len(classes)]
         k = int(rng.integers(2, 9))
@@ -132,6 +144,11 @@ def cov_cases(rng, n, ctx):
                 try:
                     Ks = pe.covariance(objs, correlation=True, smooth=E)
                     cases.append({'id': cid + '-smooth%d' % E, 'ev': 'smooth', 'corr': mat(K), 'res': mat(Ks), 'E': E})
+                    if np.linalg.cond(Ks) < 1e6 and np.all(np.linalg.eigvalsh((Ks + Ks.T) / 2) > 1e-6):
+                        # the Cholesky helper takes the matrix it is given - a smoothed correlation matrix has trace n, not a unit diagonal
+                        errs_s = np.array([o.dvalue for o in objs])
+                        cis = pe.obs.invert_corr_cov_cholesky(Ks, np.diag(1 / errs_s))
+                        cases.append({'id': cid + '-smooth%d-chol' % E, 'ev': 'cholinv', 'corr': mat(Ks), 'errs': [rat(float(e)) for e in errs_s], 'chol_inv': mat(cis)})
                 except Exception as e:  # noqa: BLE001
                     cases.append({'id': cid + '-smooth%d' % E, 'ev': 'raised', 't': type(e).__name__})
     return cases
